@@ -425,6 +425,11 @@ func (q *Query) lit(s string) string {
 	}
 	q.lits[s] = n
 	q.litOrder = append(q.litOrder, s)
+	// strings.ToLower / EqualFold on literals: the lower-case form of every literal is a literal too (registered here,
+	// while the query is built; the prelude is rendered concurrently by the solver goroutines and must only read)
+	if l := strings.ToLower(s); l != s {
+		q.lit(l)
+	}
 	return n
 }
 
@@ -434,10 +439,6 @@ var intLitRe = regexp.MustCompile(`^-?\d+$`)
 // litPrelude: declarations and ground axioms for all string literals used so far.
 func (q *Query) litPrelude() string {
 	var b strings.Builder
-	// strings.ToLower / EqualFold on literals: the lower-case form of every literal is a literal too
-	for i := 0; i < len(q.litOrder); i++ {
-		q.lit(strings.ToLower(q.litOrder[i]))
-	}
 	names := make([]string, 0, len(q.litOrder))
 	for _, s := range q.litOrder {
 		n := q.lits[s]
